@@ -8,12 +8,15 @@ for spec in sys.argv[1:]:
     f, kind, name = parts[:3]
     impl = parts[3] if len(parts) > 3 and parts[3] else None
     derive = parts[4] if len(parts) > 4 else ""
+    body = parts[5] if len(parts) > 5 else ""
     attrs = {"file": f, "kind": kind, "name": name}
     if impl: attrs["impl"] = impl
     if derive: attrs["derive"] = derive
+    if body: attrs["body"] = body
     ex = X.extract(os.path.join(vf.REPO, f), kind, name, impl)
     text, log, loops = vf.normalise_item(attrs, ex["text"])
     hdr = "//#item file=%s kind=%s name=%s" % (f, kind, name)
     if impl: hdr += ' impl="%s"' % impl
     if derive: hdr += " derive=%s" % derive
+    if body: hdr += " body=%s" % body
     print(hdr); print(text.rstrip("\n")); print("//#end")
